@@ -1,4 +1,9 @@
 import Gtree.Lemmas.SourceRefines
+import Gtree.Lemmas.WorkerFacts
+import Gtree.Lemmas.HeapGrower
+import Gtree.Lemmas.HeapMkdir
+import Gtree.Lemmas.HeapWalk
+import Gtree.Lemmas.HeapSpread
 import Gtree.Model.Spreader
 import Gtree.Lemmas.ParseDoc
 import Gtree.Generated.Facts
@@ -406,3 +411,32 @@ theorem C10_walk_any_interleaving (f : Fmt) (roots : List T) (r : List Visit)
   exact ⟨t, ht, la, lb, hsplit, hsub⟩
 end Gtree
 
+
+namespace Gtree
+/-- Tie to the source for the PER-ROOT WORK OF THE MASSIVE MODE (facts regenerated from pipeline_tree_*.go on every
+    run, decided here): every stage type of the pipeline embeds the simple mode's type (`defaultGrowerPipeline` embeds
+    `*defaultGrowerSimple`, …), its `worker` calls on its receiver exactly the simple mode's per-root methods —
+    `assemble`; `isExistRoot` and `makeDirectoriesAndFiles`; `walkNode`; `spreadBranch` between `Lock` and `Unlock`;
+    `verifyRoot` and `handleErr` — and the stage type declares no method of those names itself, so the calls are the
+    promoted methods: the very functions that are translated in heap mode and proved equal to the model
+    (`SrcH.defaultGrowerSimple.assemble`: `assemble_root`; `SrcH.defaultMkdirerSimple.makeDirectoriesAndFiles`:
+    `mk_node`; `SrcH.defaultWalkerSimple.walkNode`: `walk_node`; `SrcH.defaultSpreaderSimple.spreadBranch`:
+    `spread_node`; the verifier's verdict: §4.4).  What a worker does to one root in the massive mode is therefore
+    what the simple mode does to it; the theorems of this file are about how the roots' work interleaves. -/
+theorem C10_facts_workers_run_the_translated_functions :
+    expectedWorkers.all workerOk = true ∧ Facts.workerCalls.length = expectedWorkers.length ∧
+    (∀ (dg : SrcH.defaultGrowerSimple) (t : T) (h : SrcH.Heap) (r : Go.Ptr) (fuel : Nat),
+      SrcH.Repr h t r 0 1 → (SrcH.ptrs h t r).Nodup → 2 * t.size + 1 ≤ fuel →
+      ∃ h', SrcH.defaultGrowerSimple.assemble fuel h dg r = some (h', SrcH.expErr dg (growRoot (SrcH.fmtOf dg) t))) ∧
+    (∀ (dm : SrcH.defaultMkdirerSimple) (h : SrcH.Heap) (t : T) (fs : FS) (p par : Go.Ptr) (lvl fuel : Nat),
+      SrcH.Repr h t p par lvl → t.size ≤ fuel →
+      SrcH.defaultMkdirerSimple.makeDirectoriesAndFiles fuel h fs dm p =
+        some ((mkNodes dm.targetDir dm.fileConsiderer.extensions fs (SrcH.readNode h t p lvl)).1,
+              SrcH.osErr (mkNodes dm.targetDir dm.fileConsiderer.extensions fs (SrcH.readNode h t p lvl)).2)) := by
+  refine ⟨workers_run_the_simple_functions.1, workers_run_the_simple_functions.2, ?_, ?_⟩
+  · intro dg t h r fuel hr hnd hf
+    obtain ⟨h', hrun, _⟩ := SrcH.assemble_root dg t h r fuel hr hnd hf
+    exact ⟨h', hrun⟩
+  · intro dm h t fs p par lvl fuel hr hf
+    exact SrcH.mk_node dm h t fs p par lvl fuel hr hf
+end Gtree
